@@ -264,6 +264,15 @@ func c02Judge(c *core.Ctx, in []byte, section string, distinctByInput bool) {
 	}
 	var err error
 	h := gen.HashBytes(in)
+	if h%13 == 2 || h%13 == 7 {
+		// receivers are plain values: one that lives in a slice that grew, or was returned from a function, has moved
+		moved := *m
+		m = &moved
+		c.Count("receivers_moved_by_value_before_the_decode", 1)
+	}
+	// lookups bound before the datagram arrived (method values: `get := m.Get` in a dispatcher set up once) answer for the
+	// message the receiver holds when they are called
+	boundGet, boundContains := m.Get, m.Contains
 	inPlace := h%5 == 1
 	arg := in
 	if !inPlace && h%7 >= 3 {
@@ -327,6 +336,17 @@ func c02Judge(c *core.Ctx, in []byte, section string, distinctByInput bool) {
 		c.Sample(map[string]interface{}{"section": section, "input_hex": core.Hex(in), "tlvs": fmt.Sprint(rm.TLVs)})
 	}
 	c02Lookups(c, m, rm, in)
+	for _, t := range append([]ref.TLV{{Type: 0x7fff}}, rm.TLVs...) {
+		v1, e1 := boundGet(stun.AttrType(t.Type))
+		v2, e2 := m.Get(stun.AttrType(t.Type))
+		if (e1 == nil) != (e2 == nil) || !bytes.Equal(v1, v2) || boundContains(stun.AttrType(t.Type)) != m.Contains(stun.AttrType(t.Type)) {
+			c.Violate("lookup", "lookup:bound-before-decode", map[string]interface{}{"input_hex": core.Hex(in), "type": t.Type,
+				"problem": "m.Get / m.Contains taken as method values before the decode answer differently from the same methods called now",
+				"bound":   fmt.Sprintf("%x %v", v1, e1), "direct": fmt.Sprintf("%x %v", v2, e2)})
+
+			return
+		}
+	}
 }
 
 var errCallback = errors.New("callback error")
